@@ -236,6 +236,12 @@ def run_check(mod_name, tier, seed, replay=None):
         rc = 1
     elif total.inconclusive and total.evals < min_evals:
         rc = 2
+    elif len(total.inconclusive) > max(3, total.evals // 100):
+        # the monitors could not judge a noticeable share of the executions (reader did not understand the script,
+        # sessions timed out): neither held nor violated
+        total.inconclusive.insert(0, '%d cases could not be judged (of %d evaluations)'
+                                  % (len(total.inconclusive), total.evals))
+        rc = 2
     elif total.evals < min_evals or len(total.nontrivial) < 2:
         total.inconclusive.append('observed too little: %d evaluations, %d distinct non-trivial (minimum %d)'
                                   % (total.evals, len(total.nontrivial), min_evals))
